@@ -75,6 +75,31 @@ def cases(tier, rng):
         out.append(chunk_case(f"cut2#{n}", small, [a, b], ["pair-of-cuts"]))
         n += 1
     out.append(chunk_case(f"bytewise#{n}", med, list(range(1, len(med))), ["byte-at-a-time"]))
+    # messages of MANY frames (a multipart message has no frame-count limit): coalesced into one read, one frame per
+    # read, one byte per read for the shorter ones, and random partitions — the same items whatever the segmentation,
+    # in particular a long run of complete frames arriving in ONE read is decoded to the end
+    for nf in ([11, 12, 33, 100, 1000] if tier == "quick" else [9, 10, 11, 12, 13, 32, 33, 34, 100, 333, 1000, 5000]):
+        for shape in ("empty", "short", "mixed"):
+            fs = [b"" if shape == "empty" else bytes([65 + j % 26]) if shape == "short" else
+                  rng.choice([b"", b"x", b"yy" * 3, bytes([j % 256]) * 300]) for j in range(nf)]
+            body = zmtp.message(fs) + zmtp.message([b"tail"])
+            st = g + zmtp.ready("PUSH", None) + body
+            hs = len(st) - len(body)
+            out.append(chunk_case(f"manyframes-coalesced#{n}", st, [hs], ["many-frames"]))
+            n += 1
+            # one frame per read
+            cuts, pos = [hs], hs
+            for f in fs[:-1]:
+                pos += len(zmtp.frame(f, more=True))
+                cuts.append(pos)
+            out.append(chunk_case(f"manyframes-per-frame#{n}", st, cuts, ["many-frames"]))
+            n += 1
+            if nf <= 33:
+                out.append(chunk_case(f"manyframes-bytewise#{n}", st, list(range(hs, len(st))), ["many-frames"]))
+                n += 1
+            cuts = sorted(set([hs] + [rng.randrange(hs, len(st)) for _ in range(rng.randint(1, 6))]))
+            out.append(chunk_case(f"manyframes-random#{n}", st, cuts, ["many-frames"]))
+            n += 1
     # long streams with > 8 KiB frames, random partitions
     k = 40 if tier == "quick" else 400
     for i in range(k):
